@@ -207,6 +207,14 @@ def classify(unit, data, diags, run):
                     sec_clause = o
             elif o['k'] == 'tmpl' and s is not prim and (s.get('label') or '').startswith('failed') and sec_clause is None:
                 sec_clause = {'label': None, 'text': span_text(s), 'props': None, 'fn': 'tmpl'}
+                # a clause of a hand-written stub / lemma may carry its own `//#Cxx:label` at the end of its line
+                le = data.find(b'\n', s['byte_end'])
+                line_tail = data[s['byte_end']:le if le >= 0 else len(data)].decode('utf-8', 'replace')
+                ml = re.search(r'//#\s*(?:([A-Z0-9,]+):)?([\w.\-]+)\s*$', line_tail)
+                if ml:
+                    sec_clause['label'] = ml.group(2)
+                    if ml.group(1):
+                        sec_clause['props'] = ml.group(1).split(',')
         if fn is None:
             fn = 'tmpl::' + enclosing_tmpl_fn(unit, data, prim['byte_start'])
         if kind == 'ensures':
@@ -218,6 +226,8 @@ def classify(unit, data, diags, run):
         elif kind == 'pre':
             callee = (sec_clause.get('label') or sec_clause.get('text')) if sec_clause else '?'
             detail = '%s @ %s' % (callee, span_text(prim))
+            if sec_clause and sec_clause.get('props'):
+                props = sec_clause['props']
         elif kind.startswith('invariant'):
             if org['k'] == 'clause':
                 detail = org.get('label') or org.get('text')
